@@ -42,8 +42,8 @@ COUNTS = {
         'qutrit': 40, 'small': 120, 'pam': 2,
     },
     'thorough': {
-        'rand': 6000, 'escape': 1800, 'linefar': 800, 'swapin': 600,
-        'qutrit': 500, 'small': -1,   # -1: exhaustive (see small_cases)
+        'rand': 4500, 'escape': 1500, 'linefar': 600, 'swapin': 500,
+        'qutrit': 400, 'small': -1,   # -1: exhaustive (see small_cases)
         'pam': 25,
     },
 }
@@ -51,6 +51,12 @@ SABRE_TIMEOUT_S = 300     # watchdog per SABRE compile (inconclusive, not a verd
 PAM_TIMEOUT_S = {'quick': 600, 'thorough': 1500}
 REFSIM_MAX_N = 9
 LEAK_TOL = 1e-7
+
+
+PASS_NAMES = {
+    'greedy': 'GreedyPlacementPass', 'trivial': 'TrivialPlacementPass',
+    'static': 'StaticPlacementPass',
+}
 
 
 def floor_for(num_ops: int) -> float:
@@ -446,22 +452,6 @@ class Driver:
 
 
 # --------------------------------------------------------- SABRE evaluation
-def monomorphism_exists(case: dict[str, Any], circuit: Any) -> bool:
-    import networkx as nx
-    from networkx.algorithms import isomorphism
-    L = nx.Graph()
-    L.add_nodes_from(range(circuit.num_qudits))
-    for op in circuit:
-        loc = list(op.location)
-        for i in range(len(loc)):
-            for j in range(i + 1, len(loc)):
-                L.add_edge(loc[i], loc[j])
-    P = nx.Graph()
-    P.add_nodes_from(range(case['N']))
-    P.add_edges_from([tuple(e) for e in case['edges']])
-    return bool(isomorphism.GraphMatcher(P, L).subgraph_is_monomorphic())
-
-
 def eval_sabre(drv: Driver, case: dict[str, Any]) -> dict[str, Any]:
     res: dict[str, Any] = {'w': [], 'c': {}, 'nontrivial': False, 'inconclusive': None}
 
@@ -501,17 +491,20 @@ def eval_sabre(drv: Driver, case: dict[str, Any]) -> dict[str, Any]:
         placed = r2['placement']
         cnt('static_placement_runs')
         if len(set(placed)) == n and not M.connected_in(adj, placed):
-            if monomorphism_exists(case, r2['circuit']):
+            if placed != list(range(n)):
+                # the pass chose this set itself (SetModelPass's default is
+                # range(n)); layout and routing refuse a disconnected set
                 cnt('placement_disconnected_seen')
                 bad(dict(
-                    kind='placement:disconnected', pass_='StaticPlacementPass',
+                    kind='placement:disconnected', pass_name='StaticPlacementPass',
                     placement=placed,
                     expected='a placement inducing a connected subgraph: layout and routing refuse anything else',
                 ))
             else:
                 # nothing found (or wall-clock cut-off): the pass leaves the
-                # first-n placement, which is disconnected on this machine
-                cnt('rejected_input:static_found_nothing_and_first_n_disconnected')
+                # default first-n placement, which is disconnected on this
+                # machine; the workflow then stops with a clean RuntimeError
+                cnt('rejected_input:static_left_default_first_n_disconnected')
             return res
     try:
         out, data = drv.compile(circuit, M.sabre_workflow(case, model), SABRE_TIMEOUT_S)
@@ -533,6 +526,14 @@ def eval_sabre(drv: Driver, case: dict[str, Any]) -> dict[str, Any]:
             cnt('rejected_input:static_cutoff_then_first_n_disconnected')
             return res
         cnt('raised')
+        if 'disconnected qudits' in msg:
+            # layout/routing refused the set the placement pass handed over
+            cnt('placement_disconnected_seen')
+            bad(dict(
+                kind='placement:disconnected', pass_name=PASS_NAMES[case['placement']],
+                placement=None, then='%s: %s' % (info['exc'], msg), **info,
+            ))
+            return res
         bad(dict(kind='raised:%s:%s' % (info['exc'], info['site']), **info))
         return res
 
@@ -557,14 +558,14 @@ def eval_sabre(drv: Driver, case: dict[str, Any]) -> dict[str, Any]:
         bad(dict(kind='placement:length', placement=placed, want_len=n))
     elif not M.connected_in(adj, placed):
         cnt('placement_disconnected_seen')
-        bad(dict(kind='placement:disconnected', pass_=case['placement'], placement=placed))
+        bad(dict(kind='placement:disconnected', pass_name=PASS_NAMES[case['placement']], placement=placed))
     cnt('placement_checked')
     if sorted(rec['laid']['placement']) != sorted(placed):
         bad(dict(kind='layout:placement_set_changed', before=placed, after=rec['laid']['placement']))
     if sorted(im) != sorted(rec['laid']['placement']) or sorted(fm) != sorted(im):
         bad(dict(kind='mapping:not_onto_placement', placement=rec['laid']['placement'], initial_mapping=im, final_mapping=fm))
     if len(set(im)) == n and not M.connected_in(adj, im):
-        bad(dict(kind='placement:disconnected', pass_='final', placement=im))
+        bad(dict(kind='placement:disconnected', pass_name='final', placement=im))
     if out.num_qudits != N or list(out.radixes) != [radix] * N:
         bad(dict(kind='output:width', got=out.num_qudits, want=N))
     # layout must not touch the circuit
@@ -649,43 +650,68 @@ def make_pam_case(seed: int, idx: int, tier: str) -> dict[str, Any]:
     quick = tier == 'quick'
     # quick: one 2-qudit-block case and one 3-qudit-block case, both small
     if quick:
-        bs = 2 if idx % 2 == 0 else 3
-        n = 3 if bs == 3 else 4
+        bs, n = 2, 4
         N = n + (1 if idx % 2 == 0 else 0)
-        depth = 6 if bs == 3 else 9
+        depth = 10
         p3 = 0.0
     else:
         bs = int(rng.choice([2, 3, 3]))
         n = int(rng.choice([3, 4]))
         N = int(rng.integers(n, n + 2))
-        depth = int(rng.integers(5, 11))
-        p3 = 0.12 if bs == 3 and idx % 4 == 0 else 0.0
+        # 3-qudit blocks are synthesised for every permutation by QSearch:
+        # keep them shallow (a generic 3-qubit unitary takes minutes each)
+        depth = int(rng.integers(5, 11)) if bs == 2 else int(rng.integers(4, 7))
+        p3 = 0.15 if bs == 3 and idx % 4 == 0 else 0.0
     kind, edges = gen_graph(rng, N, ['line', 'line', 'star', 'ring', 'tree', 'all'] if not quick else ['line', 'star'])
+    # Most cases avoid stand-alone single-qudit blocks: QSearch on a 1-qudit
+    # target is flaky at threshold 1e-8 (raises 'Cannot expand a
+    # single-qudit circuit', reported separately); a case that dies in the
+    # pre-synthesis says nothing about mapping. 1 case in 5 keeps them.
+    allow_1q_blocks = (idx % 5 == 4)
     ops: list[list[Any]] = []
+    last2: list[int] | None = None
     for _ in range(depth):
         r = rng.random()
         if r < 0.08 and len(ops) > 1:
             k = int(rng.integers(2, n + 1))
             ops.append(['BARRIER', [int(x) for x in rng.choice(n, k, replace=False)], []])
+            last2 = None
             continue
-        if rng.random() < p3 and n >= 3:
+        if rng.random() < p3 and n >= 3 and not any(o[0] == 'CCX' for o in ops):
             name = 'CCX'
-        elif rng.random() < 0.6:
+        elif rng.random() < (0.8 if quick else 0.6):
             name = str(rng.choice(PAM_2))
         else:
             name = str(rng.choice(PAM_1))
-        loc = [int(x) for x in rng.choice(n, M.arity(name), replace=False)]
+        if M.arity(name) == 1 and not allow_1q_blocks:
+            if last2 is None:
+                continue
+            loc = [int(rng.choice(last2))]
+        else:
+            loc = [int(x) for x in rng.choice(n, M.arity(name), replace=False)]
+        if M.arity(name) >= 2:
+            last2 = loc
         ops.append([name, loc, gen.rand_params(rng, M.num_params(name), 'generic')])
+    if not allow_1q_blocks:
+        # every qudit takes part in a multi-qudit gate
+        used = {q for o in ops if o[0] != 'BARRIER' and len(o[1]) >= 2 for q in o[1]}
+        for q in range(n):
+            if q not in used:
+                ops.append(['CX', [q, (q + 1) % n], []])
     if quick and not any(o[0] == 'BARRIER' for o in ops):
         ops.insert(len(ops) // 2 + 1, ['BARRIER', [0, n - 1], []])
     io = [(False, True), (False, True), (True, False)]
     if bs == 2:
         io.append((True, True))
     ip, op_ = io[int(rng.integers(len(io)))]
+    if quick:
+        ip, op_ = False, True
     lay = sabre_params(rng, True)
-    lay['gate_count_weight'] = float(rng.choice([0.0, 0.3, 1.0]))
+    # small weights: a block permutation is only taken when it pays off in
+    # the routing score; weight 1.0 practically switches permutations off
+    lay['gate_count_weight'] = float(rng.choice([0.0, 0.3]))
     rou = sabre_params(rng, False)
-    rou['gate_count_weight'] = float(rng.choice([0.0, 0.1, 1.0]))
+    rou['gate_count_weight'] = 0.0 if quick else float(rng.choice([0.0, 0.0, 0.1, 1.0]))
     return {
         'engine': 'pam', 'family': 'pam', 'idx': idx, 'radix': 2,
         'n': n, 'N': N, 'graph': kind, 'edges': edges, 'ops': ops,
@@ -752,7 +778,7 @@ def eval_pam(drv: Driver, case: dict[str, Any], timeout: int) -> dict[str, Any]:
     for w in M.sanity_mappings(n, N, laid['placement'], im, fm):
         bad(w)
     if not M.connected_in(adj, laid['placement']):
-        bad(dict(kind='placement:disconnected', pass_='pam', placement=laid['placement']))
+        bad(dict(kind='placement:disconnected', pass_name='pam', placement=laid['placement']))
     if sorted(rec['pre']['placement']) != sorted(laid['placement']):
         bad(dict(kind='layout:placement_set_changed', before=rec['pre']['placement'], after=laid['placement']))
     if not set(im) <= set(laid['placement']) or not set(fm) <= set(laid['placement']):
@@ -835,6 +861,8 @@ def run_batch(arg: tuple[list[dict[str, Any]], int, str]) -> list[dict[str, Any]
                 drv.drop()
             r['sig'] = core.sig_of(case)
             r['family'] = case['family']
+            if r.get('summary') is not None and r.get('nontrivial'):
+                r['case'] = case
             out.append(r)
     finally:
         drv.drop()
@@ -871,7 +899,8 @@ def main(tier: str, seed: int, replay: str | None = None) -> int:
 
     # PAM batches first (long), then SABRE batches fill the remaining workers
     per = max(8, min(60, len(cases) // (nproc * 3) + 1))
-    pam_par = 2 if tier == 'quick' else 4
+    run.max_samples = 6
+    pam_par = 2 if tier == 'quick' else 5
     pam_batches = [[] for _ in range(min(pam_par, len(pam_cases)))]
     for i, c in enumerate(pam_cases):
         pam_batches[i % len(pam_batches)].append(c)
@@ -893,7 +922,10 @@ def main(tier: str, seed: int, replay: str | None = None) -> int:
             if r.get('summary') is not None and r.get('nontrivial'):
                 fams = {s.get('family') for s in run.samples}
                 if r['family'] not in fams and len(run.samples) < run.max_samples:
-                    run.samples.append(core.jsonable(dict(family=r['family'], **r['summary'])))
+                    run.samples.append(core.jsonable({
+                        'family': r['family'], 'input': r.get('case'),
+                        'observed': r['summary'],
+                    }))
 
     for c, m in (
         ('compiled', 50), ('placement_checked', 50), ('coupling_checked', 50),
@@ -920,11 +952,11 @@ def main(tier: str, seed: int, replay: str | None = None) -> int:
             'gate matrices come from each operation\'s own get_unitary (C18 checks them)',
             'barriers are fences, not operations: they are compared by position but not required to sit on coupled qudits',
             'a block whose gates are all single-qudit is not a multi-qudit operation',
-            'TrivialPlacementPass refusing a disconnected first-n set, and StaticPlacementPass finding no monomorphism, are documented refusals (rejected_input)',
+            'TrivialPlacementPass refusing a disconnected first-n set, and StaticPlacementPass leaving the default first-n placement when it finds nothing, are documented refusals (rejected_input)',
             'refsim isometry check only for machines of <= %d qudits; wider machines are decided by the structural oracles' % REFSIM_MAX_N,
             'PAM budget: (k+1)^2 * success_threshold with k = number of synthesised blocks (DESIGN 2.2)',
         ],
-        extra={'exhaustive': tier == 'thorough', 'exhaustive_subspace': 'connected labelled coupling graphs on 2..5 vertices (771)' if tier == 'thorough' else 'connected labelled coupling graphs on 2..4 vertices (43)'},
+        extra={'exhaustive': False, 'exhaustive_subspace': 'connected labelled coupling graphs on 2..5 vertices (771)' if tier == 'thorough' else 'connected labelled coupling graphs on 2..4 vertices (43)'},
     )
 
 
